@@ -25,6 +25,7 @@ INVARIANT BytesParserKeepsGt
 INVARIANT BytesParserKeepsEmpty
 INVARIANT HasGtCovered
 INVARIANT BlankEdgesAreLost
+INVARIANT HandleAtKIsRemainingLines
 INVARIANT OrderFamilyUnsorted
 INVARIANT LayoutsSound
 INVARIANT CanonIsALayout
